@@ -129,4 +129,322 @@ theorem C19_choice_in_range (n : Nat) (ws : List Nat) (u : Unif) (i : Nat)
       omega
     · cases h
 
+/-! ## 2. ProbabilisticAgent: the vector handed to numpy is indexed by action number (F-29 repaired) -/
+
+theorem mapM_some_spec {α β} (f : α → Option β) :
+    ∀ (l : List α) (v : List β), l.mapM f = some v →
+      v.length = l.length ∧ ∀ i (h : i < l.length), v[i]? = f l[i] := by
+  intro l
+  induction l with
+  | nil => intro v h; simp at h; subst h; simp
+  | cons a l ih =>
+    intro v h
+    simp only [List.mapM_cons] at h
+    cases hfa : f a with
+    | none => simp [hfa] at h
+    | some b =>
+      cases hl : l.mapM f with
+      | none => simp [hfa, hl] at h
+      | some bs =>
+        simp [hfa, hl] at h
+        subst h
+        obtain ⟨hlen, hget⟩ := ih bs hl
+        refine ⟨by simp [hlen], ?_⟩
+        intro i hi
+        cases i with
+        | zero => simp [hfa]
+        | succ i => simpa using hget i (by simpa using hi)
+
+theorem mapM_some_of_all {α β} (f : α → Option β) :
+    ∀ (l : List α), (∀ a ∈ l, (f a).isSome) → ∃ v, l.mapM f = some v := by
+  intro l
+  induction l with
+  | nil => intro _; exact ⟨[], by simp⟩
+  | cons a l ih =>
+    intro h
+    obtain ⟨v, hv⟩ := ih (fun x hx => h x (List.mem_cons_of_mem a hx))
+    have ha := h a (List.mem_cons_self)
+    cases hfa : f a with
+    | none => simp [hfa] at ha
+    | some b => exact ⟨b :: v, by simp [List.mapM_cons, hfa, hv]⟩
+
+/-- **vector_aligned.** For every table the validator accepts, the vector the (repaired) code builds has one entry
+per key and entry `i` is the probability configured for action `i`. -/
+theorem C19_vector_aligned (tb : Table) (h : tb.covered = true) :
+    ∃ v, tb.vector .byKey = some v ∧ v.length = tb.length ∧ ∀ i, i < tb.length → v[i]? = tb.lookup i := by
+  have hall : ∀ a ∈ List.range tb.length, (tb.lookup a).isSome := by
+    simpa [Table.covered, List.all_eq_true] using h
+  obtain ⟨v, hv⟩ := mapM_some_of_all tb.lookup _ hall
+  obtain ⟨hlen, hget⟩ := mapM_some_spec tb.lookup _ v hv
+  refine ⟨v, hv, by simpa using hlen, ?_⟩
+  intro i hi
+  have := hget i (by simpa using hi)
+  rw [List.getElem_range] at this
+  exact this
+
+/-- Without the validator's guarantee the by-key vector is a `KeyError`, never a misaligned vector. -/
+theorem C19_vector_by_key_aligned_or_raises (tb : Table) (v : List Nat) (h : tb.vector .byKey = some v) :
+    v.length = tb.length ∧ ∀ i, i < tb.length → v[i]? = tb.lookup i := by
+  obtain ⟨hlen, hget⟩ := mapM_some_spec tb.lookup _ v h
+  refine ⟨by simpa using hlen, fun i hi => ?_⟩
+  have := hget i (by simpa using hi)
+  rw [List.getElem_range] at this
+  exact this
+
+/-- **The probabilistic agent never selects an action configured with probability zero** — for every table, every
+number of actions and every uniform draw; the selected index also lies inside the action map. -/
+theorem C19_prob_agent_never_selects_zero (tb : Table) (n : Nat) (u : Unif) (i : Nat)
+    (h : probAgentChoice .byKey tb n u = .chose i) :
+    i < n ∧ ∃ w, tb.lookup i = some w ∧ 0 < w := by
+  unfold probAgentChoice at h
+  split at h
+  · cases h
+  · rename_i ws hws
+    obtain ⟨hlen, hget⟩ := C19_vector_by_key_aligned_or_raises tb ws hws
+    have hin := C19_choice_in_range n ws u i h
+    obtain ⟨w, hw, hpos⟩ := C19_never_zero n ws u i h
+    have hi : i < tb.length := by
+      have : i < ws.length := by
+        rcases Nat.lt_or_ge i ws.length with hlt | hge
+        · exact hlt
+        · rw [List.getElem?_eq_none hge] at hw; cases hw
+      omega
+    exact ⟨hin, w, by rw [← hget i hi]; exact hw, hpos⟩
+
+/-- The statement the unrepaired code (vector in insertion order) would have to satisfy … -/
+def C19_InsertionOrderNeverSelectsZero : Prop :=
+  ∀ (tb : Table) (n : Nat) (u : Unif) (i : Nat), tb.covered = true → u.num < u.den →
+    probAgentChoice .insertion tb n u = .chose i → ∃ w, tb.lookup i = some w ∧ 0 < w
+
+/-- … and its refutation: the table written `{1: 0.0, 0: 1.0}` selects action 1 for every draw (finding F-29). -/
+theorem C19_insertion_order_counterexample : ¬ C19_InsertionOrderNeverSelectsZero := by
+  intro h
+  have := h [(1, 0), (0, 1)] 2 ⟨0, 1⟩ 1 (by decide) (by decide) (by decide)
+  obtain ⟨w, hw, hpos⟩ := this
+  have : w = 0 := by
+    have e : Table.lookup [(1, 0), (0, 1)] 1 = some 0 := by decide
+    rw [e] at hw; cases hw; rfl
+  omega
+
+/-- In that table *every* draw selects the zero-probability action. -/
+example (u : Unif) (hu : u.num < u.den) : probAgentChoice .insertion [(1, 0), (0, 1)] 2 u = .chose 1 := by
+  simp [probAgentChoice, Table.vector, Table.vectorInsertion, choice, scan, hu]
+
+/-- Non-vacuity of `C19_prob_agent_never_selects_zero`: a shuffled table with a zero entry does select something. -/
+example : probAgentChoice .byKey [(1, 0), (0, 1)] 2 ⟨1, 2⟩ = .chose 0 := by decide
+
+/-! ## 3. PeriodicAgent: first action, gaps, count, action -/
+
+/-- One call of `PeriodicAgent.get_action` idles, executes, or raises — with exactly these side conditions. -/
+theorem periodicStep_tri (c : PeriodicCfg) (s : PeriodicState) (t d : Int) (k : Nat) :
+    let r := periodicStep c s t d k
+    (r.2 = .doNothing ∧ r.1 = s ∧ s.dead = false ∧ ¬ (t = s.next ∧ s.numExec < c.maxExecutions)) ∨
+    (∃ n, r.2 = .execute n ∧ s.dead = false ∧ t = s.next ∧ s.numExec < c.maxExecutions ∧
+        r.1.next = t + c.frequency + d ∧ r.1.numExec = s.numExec + 1 ∧ r.1.dead = false ∧ r.1.startNode = some n ∧
+        (s.startNode = some n ∨ (s.startNode = none ∧ n = k ∧ k < c.nStartNodes)) ∧ 0 ≤ c.variance) ∨
+    (r.2 = .raised ∧ r.1.dead = true) := by
+  intro r
+  cases hd : s.dead with
+  | true => right; right; simp [r, periodicStep, hd]
+  | false =>
+    by_cases hc : t = s.next ∧ s.numExec < c.maxExecutions
+    · by_cases hv : randintOk c.variance = true
+      · have hv' : 0 ≤ c.variance := by simpa [randintOk] using hv
+        cases hn : s.startNode with
+        | some n =>
+          right; left
+          exact ⟨n, by simp [r, periodicStep, hd, hc, hv, hn], rfl, hc.1, hc.2, by simp [r, periodicStep, hd, hc, hv, hn],
+            by simp [r, periodicStep, hd, hc, hv, hn], by simp [r, periodicStep, hd, hc, hv, hn],
+            by simp [r, periodicStep, hd, hc, hv, hn], Or.inl rfl, hv'⟩
+        | none =>
+          by_cases hk : k < c.nStartNodes
+          · right; left
+            exact ⟨k, by simp [r, periodicStep, hd, hc, hv, hn, hk], rfl, hc.1, hc.2, by simp [r, periodicStep, hd, hc, hv, hn, hk],
+              by simp [r, periodicStep, hd, hc, hv, hn, hk], by simp [r, periodicStep, hd, hc, hv, hn, hk],
+              by simp [r, periodicStep, hd, hc, hv, hn, hk], Or.inr ⟨rfl, rfl, hk⟩, hv'⟩
+          · right; right
+            simp [r, periodicStep, hd, hc, hv, hn, hk]
+      · right; right
+        simp [r, periodicStep, hd, hc, hv]
+    · left
+      simp [r, periodicStep, hd, hc]
+
+/-- A dead agent never executes again. -/
+theorem periodic_dead_run (c : PeriodicCfg) :
+    ∀ (ins : List PIn) (s : PeriodicState) (t : Int), s.dead = true →
+      execTimes t (runFrom (periodicStep c) s t ins) = [] := by
+  intro ins
+  induction ins with
+  | nil => intro s t _; rfl
+  | cons i is ih =>
+    intro s t hd
+    have : periodicStep c s t i.d i.k = (s, .raised) := by simp [periodicStep, hd]
+    simp only [runFrom, this, execTimes]
+    exact ih s (t + 1) hd
+
+/-- Draws lie in the range the code asks `randint` for. -/
+def DrawsIn (v : Int) (ins : List PIn) : Prop := ∀ i ∈ ins, -v ≤ i.d ∧ i.d ≤ v
+
+/-- Invariant-carrying form of the schedule theorem, from an arbitrary state and timestep. -/
+theorem periodic_run_from (c : PeriodicCfg) :
+    ∀ (ins : List PIn) (s : PeriodicState) (t : Int), DrawsIn c.variance ins →
+      let L := execTimes t (runFrom (periodicStep c) s t ins)
+      (∀ x ∈ L, t ≤ x) ∧ (L = [] ∨ ∃ rest, L = s.next :: rest) ∧
+      GapsIn (c.frequency - c.variance) (c.frequency + c.variance) L ∧
+      ((L.length : Int) ≤ max 0 (c.maxExecutions - s.numExec)) := by
+  intro ins
+  induction ins with
+  | nil => intro s t _; simp [runFrom, execTimes, GapsIn]; omega
+  | cons i is ih =>
+    intro s t hdr
+    have hdr' : DrawsIn c.variance is := fun j hj => hdr j (List.mem_cons_of_mem i hj)
+    have hi := hdr i List.mem_cons_self
+    rcases periodicStep_tri c s t i.d i.k with ⟨he, hs, _, hnc⟩ | ⟨n, he, _, htn, hlt, hnext, hnum, _, _, _, _⟩ | ⟨he, hdead⟩
+    · -- idle
+      simp only [runFrom, he, hs, execTimes]
+      obtain ⟨h1, h2, h3, h4⟩ := ih s (t + 1) hdr'
+      refine ⟨fun x hx => by have := h1 x hx; omega, h2, h3, h4⟩
+    · -- execute at t = s.next
+      simp only [runFrom, he, execTimes]
+      obtain ⟨h1, h2, h3, h4⟩ := ih (periodicStep c s t i.d i.k).1 (t + 1) hdr'
+      refine ⟨?_, Or.inr ⟨_, by rw [htn]⟩, ?_, ?_⟩
+      · intro x hx
+        rcases List.mem_cons.mp hx with rfl | hx
+        · exact Int.le_refl _
+        · have := h1 x hx; omega
+      · rcases h2 with hnil | ⟨rest, hrest⟩
+        · rw [hnil]; simp [GapsIn]
+        · rw [hrest] at h3 ⊢
+          refine ⟨?_, h3⟩
+          rw [hnext]; constructor <;> omega
+      · simp only [List.length_cons]
+        rw [hnum] at h4
+        omega
+    · -- raised
+      simp only [runFrom, he, execTimes]
+      rw [periodic_dead_run c is _ (t + 1) hdead]
+      simp [GapsIn]
+      omega
+
+/-- **Schedule of the periodic agent**, for every configuration the validator accepts, every start draw in
+`[-start_variance, start_variance]`, every sequence of later draws in `[-variance, variance]` and every run length:
+nothing happens before `start_step − start_variance`; the first action, if any, is exactly at `start_step + d0`
+(hence within `start_step ± start_variance`); consecutive actions are `frequency + d` apart, i.e. within
+`frequency ± variance`; and there are at most `max_executions` of them. -/
+theorem C19_periodic_schedule (c : PeriodicCfg) (d0 : Int) (s0 : PeriodicState) (ins : List PIn)
+    (h0 : periodicInit c d0 = some s0)
+    (hd0 : -c.startVariance ≤ d0 ∧ d0 ≤ c.startVariance) (hins : DrawsIn c.variance ins) :
+    let L := execTimes 0 (runFrom (periodicStep c) s0 0 ins)
+    (∀ x ∈ L, c.startStep - c.startVariance ≤ x) ∧
+    (L = [] ∨ ∃ rest, L = (c.startStep + d0) :: rest) ∧
+    (∀ x, L.head? = some x → c.startStep - c.startVariance ≤ x ∧ x ≤ c.startStep + c.startVariance) ∧
+    GapsIn (c.frequency - c.variance) (c.frequency + c.variance) L ∧
+    (L.length : Int) ≤ max 0 c.maxExecutions := by
+  have hs : s0.next = c.startStep + d0 ∧ s0.numExec = 0 := by
+    unfold periodicInit at h0
+    split at h0
+    · cases h0; exact ⟨rfl, rfl⟩
+    · cases h0
+  obtain ⟨h1, h2, h3, h4⟩ := periodic_run_from c ins s0 0 hins
+  rw [hs.1] at h2
+  rw [hs.2] at h4
+  have hfirst : ∀ x, (execTimes 0 (runFrom (periodicStep c) s0 0 ins)).head? = some x → x = c.startStep + d0 := by
+    intro x hx
+    rcases h2 with hnil | ⟨rest, hrest⟩
+    · rw [hnil] at hx; cases hx
+    · rw [hrest] at hx; simp at hx; exact hx.symm
+  refine ⟨?_, h2, ?_, h3, by simpa using h4⟩
+  · -- every action time is ≥ the first one (gaps are positive because variance < frequency)
+    have hpos : 0 < c.frequency - c.variance := by
+      unfold periodicInit at h0
+      split at h0
+      · rename_i hv; have := hv.1; simp [PeriodicCfg.valid] at this; omega
+      · cases h0
+    rcases h2 with hnil | ⟨rest, hrest⟩
+    · rw [hnil]; simp
+    · rw [hrest] at h3 ⊢
+      have : ∀ (l : List Int) (a : Int), GapsIn (c.frequency - c.variance) (c.frequency + c.variance) (a :: l) →
+          ∀ x ∈ a :: l, a ≤ x := by
+        intro l
+        induction l with
+        | nil => intro a _ x hx; simp at hx; omega
+        | cons b l ihl =>
+          intro a hg x hx
+          rcases List.mem_cons.mp hx with rfl | hx
+          · exact Int.le_refl _
+          · have := ihl b hg.2 x hx
+            have := hg.1.1
+            omega
+      intro x hx
+      have := this rest _ h3 x hx
+      omega
+  · intro x hx
+    have := hfirst x hx
+    omega
+
+/-- Non-vacuity: start 3, start variance 1 (draw −1), frequency 4, variance 2, at most 3 executions: the agent acts at
+steps 2, 5, 7 and then never again. -/
+example :
+    let c : PeriodicCfg := { startStep := 3, startVariance := 1, frequency := 4, variance := 2, maxExecutions := 3, nStartNodes := 2 }
+    ∃ s0, periodicInit c (-1) = some s0 ∧
+      execTimes 0 (runFrom (periodicStep c) s0 0
+        ((List.range 20).map fun j => ({ d := if j = 2 then -1 else if j = 5 then -2 else 0, k := 1 } : PIn))) = [2, 5, 7] := by
+  refine ⟨_, rfl, ?_⟩
+  decide
+
+/-- **Action of the periodic agent**: every action is `node-application-execute` of the configured application
+(the only non-idle output of the model) on a node of `possible_start_nodes`, and always the same node. -/
+theorem C19_periodic_action_node (c : PeriodicCfg) :
+    ∀ (ins : List PIn) (s : PeriodicState) (t : Int),
+      (∀ m, s.startNode = some m → m < c.nStartNodes) →
+      ∀ n, .execute n ∈ runFrom (periodicStep c) s t ins →
+        n < c.nStartNodes ∧ (∀ m, s.startNode = some m → n = m) ∧
+        ∀ n', .execute n' ∈ runFrom (periodicStep c) s t ins → n' = n := by
+  intro ins
+  induction ins with
+  | nil => intro s t _ n h; simp [runFrom] at h
+  | cons i is ih =>
+    intro s t hwf n hmem
+    rcases periodicStep_tri c s t i.d i.k with ⟨he, hs, _, _⟩ | ⟨n0, he, _, _, _, _, _, _, hsn, hfrom, _⟩ | ⟨he, hdead⟩
+    · simp only [runFrom, he, hs, List.mem_cons, reduceCtorEq, false_or] at hmem ⊢
+      exact ih s (t + 1) hwf n hmem
+    · have hn0 : n0 < c.nStartNodes := by
+        rcases hfrom with h | ⟨_, rfl, hk⟩
+        · exact hwf n0 h
+        · exact hk
+      have hwf' : ∀ m, (periodicStep c s t i.d i.k).1.startNode = some m → m < c.nStartNodes := by
+        intro m hm; rw [hsn] at hm; cases hm; exact hn0
+      have hall : ∀ x, .execute x ∈ runFrom (periodicStep c) (periodicStep c s t i.d i.k).1 (t + 1) is → x = n0 := by
+        intro x hx
+        exact ((ih _ (t + 1) hwf' x hx).2.1 n0 hsn)
+      have hs_same : ∀ m, s.startNode = some m → n0 = m := by
+        intro m hm
+        rcases hfrom with h | ⟨hnone, _, _⟩
+        · rw [h] at hm; cases hm; rfl
+        · rw [hnone] at hm; cases hm
+      simp only [runFrom, he, List.mem_cons, PeriodicOut.execute.injEq] at hmem ⊢
+      have hn : n = n0 := by
+        rcases hmem with h | h
+        · exact h
+        · exact hall n h
+      subst hn
+      refine ⟨hn0, hs_same, ?_⟩
+      intro n' hn'
+      rcases hn' with h | h
+      · exact h
+      · exact hall n' h
+    · -- raised: dead afterwards, nothing executes
+      have hnone : ∀ (js : List PIn) (s : PeriodicState) (t : Int), s.dead = true →
+          ∀ x, PeriodicOut.execute x ∉ runFrom (periodicStep c) s t js := by
+        intro js
+        induction js with
+        | nil => intro s t _ x h; simp [runFrom] at h
+        | cons j js ihj =>
+          intro s t hd x h
+          have : periodicStep c s t j.d j.k = (s, .raised) := by simp [periodicStep, hd]
+          simp only [runFrom, this, List.mem_cons, reduceCtorEq, false_or] at h
+          exact ihj s (t + 1) hd x h
+      simp only [runFrom, he, List.mem_cons, reduceCtorEq, false_or] at hmem
+      exact absurd hmem (hnone is _ (t + 1) hdead n)
+
 end Primaite.Agents
